@@ -13,6 +13,10 @@ CHECKS = {
   text="Exception-escape fixpoint over the call graph of get_nodes()/exists() plus discharge of every partial operation (two-sided bounds, presence tests, handlers, loop headers, entry invariants proven at all call sites, listed shape invariants) and type-safety of ordering / `in` / dict-key uses. Decides the 'never a foreign exception' clause for all inputs reaching each construct; RecursionError on deep documents is declined.",
   note="Trusted base: library model (sa/partial.py), ruamel shape facts (merge entries are pairs, anchor names are str), ConsolePrinter and value-wrapping helpers outside the closure.",
   technique="interprocedural exception-escape analysis + guard-fact discharge of partial operations (linear bounds, presence, entry invariants)"),
+ "C09": dict(
+  text="Effect (purity) analysis of the whole read path with a freshness lattice and interprocedural mutation summaries: no mutation site may have a possibly-document receiver; in the optional-match driver every document mutation is dominated by the no-match test and has one of the three tail-creation forms with the padding loop in linear normal form. Decides the structural necessary conditions for all inputs; the value-level frame condition is declined.",
+  note="Trusted base: MUTATORS and FRESH_CALLS tables (which methods mutate, which calls return new objects); ConsolePrinter outside the closure.",
+  technique="interprocedural effect/purity analysis with freshness lattice + guard dominance over the AST"),
 }
 
 NOT_BUILT = "check not built yet (framework under construction; will be claimed at clause level per DESIGN.md)"
